@@ -5,7 +5,7 @@
    Proofs/DsMapProofs.v) quantifies over variables and internal positions and does not
    mention the executable definitions.  xarray's sel / isnull / isfinite / all and the
    order of ds.dims are modelled, not proved (validated by correspondence). *)
-From XV Require Import Prelude Grid DsMap GridProofs DsMapProofs.
+From XV Require Import Prelude Grid DsMap Missing GenMissing BridgeMissing GridProofs DsMapProofs.
 Open Scope Z_scope.
 
 (* a location is reported iff it lies in the grid of the non-ignored dimensions and every
@@ -56,6 +56,17 @@ Theorem C13_fixpoint : forall g ds ignore method, wf_ds ds -> has_data_var ds ->
   find_missing (harvest_missing g ds ignore method) ignore method = [].
 Proof. intros g ds ignore method. exact (harvest_missing_fixpoint g ds ignore method). Qed.
 
+(* the three functions as regenerated from xyzpy/gen/case_runner.py (reductions, KeyError
+   answer, forwarding of the null criterion read from the source by the translator) are the
+   model functions the theorems above speak about *)
+Theorem C13_regenerated_code : forall ds s ignore combos cases ods method,
+  is_case_missing_w gen_wiring ds s method = is_case_missing ds s method
+  /\ find_missing_w gen_wiring ds ignore method = find_missing ds ignore method
+  /\ parse_into_cases_w gen_wiring combos cases ods method = parse_into_cases combos cases ods method.
+Proof.
+  intros. split; [apply bridge_is_case_missing|split; [apply bridge_find_missing|apply bridge_parse_into_cases]].
+Qed.
+
 (* ------------------------------------------------------------------ non-vacuity *)
 (* dims: 1 -> [2;0;1] (dataset order, not sorted), 2 -> [0;1], internal 9 -> [0;1;2];
    variable 5 over (2, 1, 9), variable 6 over (1) only.
@@ -100,3 +111,4 @@ Print Assumptions C13_order_nodup.
 Print Assumptions C13_is_case_missing.
 Print Assumptions C13_requested.
 Print Assumptions C13_fixpoint.
+Print Assumptions C13_regenerated_code.
